@@ -17,6 +17,14 @@ LongNumLeaves == { R(Zeros(40) \o <<46,53>>, 5, -1), R(<<49,46,53>> \o Zeros(40)
                    I(<<45>> \o Zeros(38) \o <<55>>, <<45,55>>), I(<<43>> \o Zeros(33) \o <<49,55>>, <<49,55>>) }
 RealLeaves == { R(<<46,53>>, 5, -1), R(<<45,46,48,48,50>>, -2, -3), R(<<52,46>>, 4, 0),
                 R(<<43,51,46,49,52>>, 314, -2), R(<<48,46,48>>, 0, 0), R(<<45,48,46,53>>, -5, -1) }
+\* a grid of short decimals: every d.dd in [1,4), a stride through d.ddd in [1,2), some negative. Reading such a
+\* token is one correctly rounded conversion (the token denotes m x 10^e exactly); digit-by-digit arithmetic in
+\* floating point rounds twice and lands one unit in the last place away for a share of them
+Dig(d) == 48 + d
+RealGridLeaves == { R(<<Dig(m \div 100), 46, Dig((m \div 10) % 10), Dig(m % 10)>>, m, -2) : m \in 100..399 }
+                  \cup { R(<<Dig(m \div 1000), 46, Dig((m \div 100) % 10), Dig((m \div 10) % 10), Dig(m % 10)>>, m, -3) : m \in {1000 + 7 * i : i \in 0..142} }
+                  \cup { R(<<45, Dig(m \div 100), 46, Dig((m \div 10) % 10), Dig(m % 10)>>, -m, -2) : m \in {100 + 3 * i : i \in 0..99} }
+                  \cup { R(<<Dig(m \div 10), 46, Dig(m % 10)>>, m, -1) : m \in 10..99 }
 StrLeaves == { S(<<>>, TRUE), S(<<97>>, TRUE), S(<<40>>, FALSE), S(<<41>>, FALSE), S(<<40,41>>, TRUE),
                S(<<92>>, TRUE), S(<<0>>, TRUE), S(<<255>>, TRUE), S(<<13>>, TRUE), S(<<10>>, TRUE),
                S(<<13,10>>, TRUE), S(<<97,32,98>>, TRUE), S(<<40,97,40,98,41,99,41>>, TRUE), S(<<92,110>>, TRUE),
@@ -58,6 +66,7 @@ PoliciesSmall == { Pol("min","lf","lit","plain"), Pol("one","cr","oct","esc"), P
                    Pol("cmt","lf","hex","esc"), Pol("cmt","cr","hexws","plain"), Pol("min","crlf","hexws","esc"),
                    Pol("min","lf","octmix","plain"), Pol("one","lf","octmin","plain"), Pol("one","lf","contraw","plain") }
 
+PoliciesOne == { Pol("one","lf","lit","plain") }
 PoliciesWs == { Pol("min","lf","lit","plain"), Pol("one","cr","hex","esc"), Pol("all","crlf","lit","plain"),
                 Pol("cmt","lf","lit","esc"), Pol("cmt","cr","hexws","plain"), Pol("cmt","crlf","oct","plain") }
 
